@@ -1028,6 +1028,10 @@ func NewUnaryOrNumber(op UnaryOperator, node Node) Node {
 				return node
 			case UnaryMinus:
 				// Just a negative number, return it with the minus sign.
+				if lit, ok := strings.CutPrefix(node.literal, "-"); ok {
+					// Negation of a negative literal, e.g. `- -1`.
+					return NewNumeric(lit)
+				}
 				return NewNumeric("-" + node.literal)
 			default:
 				panic(fmt.Sprintf("Operator must be + or - but is %v", op))
@@ -1039,6 +1043,10 @@ func NewUnaryOrNumber(op UnaryOperator, node Node) Node {
 				return node
 			case UnaryMinus:
 				// Just a negative number, return it with the minus sign.
+				if lit, ok := strings.CutPrefix(node.literal, "-"); ok {
+					// Negation of a negative literal, e.g. `- -1`.
+					return NewInteger(lit)
+				}
 				return NewInteger("-" + node.literal)
 			default:
 				panic(fmt.Sprintf("Operator must be + or - but is %v", op))
